@@ -428,7 +428,7 @@ pub fn property(ctx: &Ctx) -> Property {
             "between weight 0 and 1 the rounding scheme is not pinned: +-3/255 per channel",
             "AA coverage is known up to C01's 16k / 16k-1 alternatives; a pixel is accepted if any admissible coverage explains it",
         ],
-        parts: vec![part("px", 40_000, 1_500_000, move || strategy(&c), check), enum_part("sweep", 28 * 256 * 3, 28 * 256 * 3, sweep_decode, check_sweep)],
+        parts: vec![part("px", 160_000, 3_000_000, move || strategy(&c), check), enum_part("sweep", 28 * 256 * 3, 28 * 256 * 3, sweep_decode, check_sweep)],
         min_class_fraction: vec![("px", "px:partial", 0.3), ("px", "non-srcover", 0.3), ("px", "clip:path", 0.15), ("px", "route:mask", 0.15), ("px", "px:w=1", 0.2), ("px", "inside-layer-with-nonzero-origin", 0.1)],
         panic_is_violation: false,
     }
